@@ -103,6 +103,84 @@ let beacon_op op a =
     let now = n_of_int ((int_of_string (arg 3)) land 0xffff) in
     Printf.sprintf "ok %s %s" (hex b) (peers_str (Beacon.decode key now (ttl_of (arg 2)) text))
 
+(* ---- PeerCrypto scenarios ---------------------------------------------------------------- *)
+let parse_algos spec : Conn.algos =
+  match split '|' spec with
+  | [pl; lst] ->
+    let l = if lst = "" || lst = "-" then [] else
+        L.map (fun e -> match split ':' e with
+            | [id; sp] -> (n_of_int (int_of_string id), n_of_int (int_of_string ("0x" ^ sp)))
+            | _ -> failwith "algo") (split ',' lst) in
+    { Conn.a_list = l; a_plain = (pl = "p") }
+  | _ -> failwith "algos"
+
+let ni s = nat_of_int (int_of_string s)
+let pc_op tok =
+  let p = Array.of_list (split '.' tok) in
+  match p.(0) with
+  | "O" ->
+    let trusted = if p.(5) = "-" then [] else L.map (fun k -> n_of_int (int_of_string k)) (split '+' p.(5)) in
+    PcSys.PNew (ni p.(1), n_of_int (int_of_string p.(2)), n_of_int (int_of_string ("0x" ^ p.(3))), unhex p.(7),
+                n_of_int (int_of_string p.(4)), trusted, parse_algos p.(6))
+  | "I" -> PcSys.PInitialize (ni p.(1))
+  | "D" -> PcSys.PDeliver (ni p.(1), ni p.(2))
+  | "F" -> PcSys.PFlip (ni p.(1), ni p.(2), ni p.(3), n_of_int (int_of_string p.(4)))
+  | "T" -> PcSys.PTrunc (ni p.(1), ni p.(2), ni p.(3))
+  | "R" -> PcSys.PRaw (ni p.(1), unhex p.(2))
+  | "E" -> PcSys.PTick (ni p.(1))
+  | "S" -> PcSys.PSend (ni p.(1), n_of_int (int_of_string p.(2)), unhex p.(3))
+  | "C" -> PcSys.PSetCounter (ni p.(1), n_of_int (int_of_string p.(2)))
+  | "X" -> PcSys.PDrop (ni p.(1))
+  | "Q" -> PcSys.PQuery (ni p.(1))
+  | "L" -> PcSys.PLast (ni p.(1), ni p.(2), n_of_int (match p.(3) with "i" -> 0 | "r" -> 1 | "d" -> 2 | _ -> 3), ni p.(4))
+  | _ -> failwith "bad pc op"
+
+let describe (w : PeerCrypto.wire) =
+  match w with
+  | PeerCrypto.WInit m -> Printf.sprintf ">I%d" (int_of_n m.Conn.im_stage)
+  | PeerCrypto.WBadInit -> ">I?"
+  | PeerCrypto.WEmpty -> ">Z"
+  | w -> Printf.sprintf ">D%d" (int_of_nat (PcSys.wire_len w))
+
+let alg_name = function
+  | None -> "PLAIN" | Some a -> (match int_of_n a with 1 -> "AES128" | 2 -> "AES256" | 3 -> "CHACHA20" | _ -> "?")
+
+let pc_result (r : PeerCrypto.msg_result Base.res) =
+  match r with
+  | Base.Ok (PeerCrypto.MMessage (ty, body)) -> Printf.sprintf "Msg%d:%s" (int_of_n ty) (hex body)
+  | Base.Ok (PeerCrypto.MInitialized p) -> "Init:" ^ hex p
+  | Base.Ok (PeerCrypto.MInitializedWithReply p) -> "InitR:" ^ hex p
+  | Base.Ok PeerCrypto.MReply -> "Reply"
+  | Base.Ok PeerCrypto.MNone -> "None"
+  | Base.Err c -> if int_of_n c = 2 then "fatal" else "err"
+  | Base.Panic _ -> "panic"
+
+let pc_query (p : PeerCrypto.peer_crypto) =
+  let b x = if x then 1 else 0 in
+  let init = match p.PeerCrypto.pc_init with
+    | None -> "-/0/0/0/0"
+    | Some i -> Printf.sprintf "%d/%d/%d/%d/%d" (int_of_n i.Conn.i_stage) (int_of_n i.Conn.i_retries) (int_of_n i.Conn.i_close_time)
+                  (b (i.Conn.i_core <> None)) (b (i.Conn.i_ecdh <> None)) in
+  let rot = match p.PeerCrypto.pc_rot with
+    | None -> "-"
+    | Some r -> Printf.sprintf "%s/%d/%d/%s/%d" (dec_of_n r.Conn.r_mid) (b (r.Conn.r_proposed <> None)) (b (r.Conn.r_pending <> None))
+                  (match r.Conn.r_confirmed with Some (_, m) -> dec_of_n m | None -> "0") (b r.Conn.r_timeout) in
+  let core = match p.PeerCrypto.pc_core with
+    | None -> "-"
+    | Some c -> Printf.sprintf "%d/%d" (int_of_n c.Core.current) (b c.Core.half) in
+  Printf.sprintf "q:init=%s;rot=%s;plain=%d;core=%s;cnt=%d;alg=%s" init rot (b p.PeerCrypto.pc_plain) core (int_of_n p.PeerCrypto.pc_counter)
+    (if p.PeerCrypto.pc_core = None then "PLAIN" else alg_name p.PeerCrypto.pc_alg)
+
+let pc_out = function
+  | PcSys.ONone -> "-"
+  | PcSys.OOk w -> "ok" ^ describe w
+  | PcSys.ORes (r, w) -> pc_result r ^ (match w with Some x -> describe x | None -> "")
+  | PcSys.OQuery p -> pc_query p
+
+let pc_scenario a =
+  let (_, outs) = PcSys.prun PcSys.always_ok PcSys.pst0 (L.map pc_op a) in
+  S.concat " " (L.map pc_out outs)
+
 let run (op : string) (a : string list) : string option =
   let arg i = L.nth a i in
   match op with
@@ -112,6 +190,7 @@ let run (op : string) (a : string list) : string option =
   | "nonce_inc" -> Some (hex (Nonce.nonce_increment (unhex (arg 0))))
   | "core" -> Some (core_scenario a)
   | "table" -> Some (table_scenario a)
+  | "pc" -> Some (pc_scenario a)
   | "beacon_enc" | "beacon_dec" | "beacon_rt" -> Some (beacon_op op a)
   | "keyrt" ->
     let key = unhex (arg 0) in
